@@ -40,7 +40,7 @@ CHECKS = {
             "Printing of all functions n<=4 and families to n=14; all strings over a 24-symbol alphabet (hex, upper case, sign, space, non-hex, multi-byte) up to width+2 for n<=3; mutations of valid strings at every position of the first/middle/last chunk for larger n; never-panics and rejects-everything-else monitors; {:#}/width/fill/+/0 flags and writers failing after k bytes on every print event.",
             TRUST, "3/C09"),
     "C10": ("runtime monitoring: differential monitor LutN vs Lut over a 47-operation catalogue + conversion monitors (exhaustive u8/u16, 2^32 u32 sweep in thorough)",
-            "Every operation of the catalogue with identical in-range arguments on both types for N=0..12 (all pairs of functions for N<=2); results compared structurally incl. panic/no panic; TryFrom for every (N,n) pair; integer conversions bit-exact; both all_functions iterators driven through the same Iterator-method scripts; remembered events re-executed later must return the same results.",
+            "Every operation of the catalogue (and the formatting traits under 45 format specs) with identical in-range arguments on both types for N=0..12 (all pairs of functions for N<=2); results compared structurally incl. panic/no panic; TryFrom for every (N,n) pair; integer conversions bit-exact; both all_functions iterators driven through the same Iterator-method scripts; remembered events re-executed later must return the same results.",
             TRUST + "Differential: a defect shared by both types is invisible here (owned by the other properties).", "3/C10"),
     "C11": ("runtime monitoring: popcount-definition oracle for every named constructor, arguments incl. k up to usize::MAX and count masks with garbage, two build profiles",
             "n=0..14, all i, k in 0..=n+2 and around 32/64/128/usize::MAX, all 2^(n+1) count masks for n<=4 (all to n=12 in thorough) plus walking ones/zeros and random 64-bit masks.",
@@ -64,15 +64,16 @@ CHECKS = {
             "Every index-taking entry point of both types for n=0..8 with indices n..n+70, 2^32, 2^63+n, usize::MAX-1, usize::MAX; size-mismatched operands in every operator form; wrong-length block slices; plus the 47-operation catalogue on valid arguments diffed between the profiles.",
             TRUST + "Profiles compared: opt-level 2 + debug-assertions + overflow-checks vs opt-level 3 without.", "3/C17"),
     "C18": ("runtime monitoring: differential monitor against an exhaustive shortest-path optimum (independent of any MIP model) + denotation/implicant monitors, feature optim-mip (HiGHS)",
-            "n<=2 with 1..2 outputs for every function (pair) and cost triple, all single functions of n=3, every n=3 function listed twice under all 27 cost triples, sampled 2..3-output n=3, 1..3-output n=4 lists; only costs are compared; sharing between outputs must have been strictly cheaper in some event.",
+            "n<=2 with 1..2 outputs for every function (pair) and cost triple, all single functions of n=3, every n=3 function listed twice under all 27 cost triples, sampled 2..3-output n=3, 1..3-output n=4 lists; dense n=3..4 lists with 2..3 outputs judged by local optimality and dominance across cost triples (3 000 quick / 400 000 thorough); only costs are compared; sharing between outputs must have been strictly cheaper in some event.",
             TRUST + "HiGHS is trusted to return what it claims (its answer is checked for validity and optimality, not its internals).", "3/C18"),
     "C19": ("runtime monitoring: statistical checkers over per-thread draw logs (1 thread and 16 threads released by a barrier) + Miri (UB / data-race interpreter) on a 4-thread miniature",
-            "256 draws per size, type and thread: well-formedness, both values at every assignment, pairwise distinctness, word independence, thread independence, thresholds with false-alarm probability < 2^-200; Miri with several scheduler seeds interprets rand's unsafe thread-local generator code.",
+            "256 draws per size, type and thread: well-formedness, both values at every assignment, pairwise distinctness, word independence, thread independence, thread-start rounds, 2^18..2^20 draws per size pairwise distinct in 256 bits, thresholds with false-alarm probability < 2^-200; Miri with several scheduler seeds interprets rand's unsafe thread-local generator code.",
             TRUST + "Statistical: a generator can be biased in ways these one-sided tests do not see.", "3/C19"),
 }
 
-MIX = (" Alias forms (one object on both sides) and std-trait routes are part of the workload, and a thinned sample of all "
-       "events is re-executed mixed on one thread under the same monitors (hidden-state monitor, DESIGN.md section 1).")
+MIX = (" Alias forms (one object on both sides), std-trait routes and operands built through every construction route are part "
+       "of the workload; a thinned sample of all events is re-executed mixed on one thread and then on 8 threads at once under "
+       "the same monitors (hidden-state / shared-state monitors, DESIGN.md section 1).")
 for _k in list(CHECKS):
     if _k not in ("C17", "C19"):
         t, lvl, note, ref = CHECKS[_k]
